@@ -29,6 +29,7 @@ import (
 	"github.com/google/uuid"
 	"google.golang.org/protobuf/proto"
 	fmpb "google.golang.org/protobuf/types/known/fieldmaskpb"
+	tspb "google.golang.org/protobuf/types/known/timestamppb"
 
 	"verifsim/core"
 	"verifsim/images"
@@ -166,7 +167,13 @@ func runC07(r *core.Run) {
 		var call func()
 		switch r.Intn(9, "artefact") {
 		case 0, 1, 2: // endorsement bytes
-			e, o := corruptN(r, is.Bytes, certTable, "endorsement")
+			var e []byte
+			var o string
+			if r.Chance(40, "field-level?") {
+				e, o = fieldMutate(r, a, is)
+			} else {
+				e, o = corruptN(r, is.Bytes, certTable, "endorsement")
+			}
 			e = r.Blob(fmt.Sprintf("in%d", i), func() []byte { return e })
 			ops, inputLen = o, len(e)
 			le := &epb.VMLaunchEndorsement{}
@@ -317,4 +324,81 @@ func runC07(r *core.Run) {
 		}
 	}
 	r.Sample = map[string]any{"calls": samples}
+}
+
+// fieldMutate edits one or two fields of the golden measurement to boundary values (empty, short,
+// over-long, extreme numbers) and re-assembles the endorsement, either keeping the now invalid
+// signature or re-signing with the genuine key so the code behind the signature check is reached.
+func fieldMutate(r *core.Run, a *Party, is *Issued) ([]byte, string) {
+	g := proto.Clone(is.Golden).(*epb.VMGoldenMeasurement)
+	var ops []string
+	short := func(label string) []byte {
+		n := []int{0, 1, 2, 3, 4, 5, 19, 21, 47, 49, 64}[r.Intn(11, label+"-len")]
+		return bytes.Repeat([]byte{byte(r.Intn(256, label+"-byte"))}, n)
+	}
+	for i, n := 0, 1+r.Intn(2, "fields"); i < n; i++ {
+		switch f := r.Intn(12, "field"); f {
+		case 0:
+			g.ClSpec, g.Commit = 0, short("commit")
+			ops = append(ops, fmt.Sprintf("field:commit[%d]", len(g.Commit)))
+		case 1:
+			g.Timestamp = nil
+			ops = append(ops, "field:timestamp=nil")
+		case 2:
+			g.Timestamp = &tspb.Timestamp{Seconds: []int64{-1 << 62, 1 << 62, 0, 253402300800}[r.Intn(4, "ts")], Nanos: []int32{0, -1, 1 << 30}[r.Intn(3, "ns")]}
+			ops = append(ops, "field:timestamp=extreme")
+		case 3:
+			g.Cert = short("cert")
+			ops = append(ops, fmt.Sprintf("field:cert[%d]", len(g.Cert)))
+		case 4:
+			g.Digest = short("digest")
+			ops = append(ops, fmt.Sprintf("field:digest[%d]", len(g.Digest)))
+		case 5:
+			if g.SevSnp == nil {
+				g.SevSnp = &epb.VMSevSnp{}
+			}
+			if g.SevSnp.Measurements == nil {
+				g.SevSnp.Measurements = map[uint32][]byte{}
+			}
+			g.SevSnp.Measurements[[]uint32{0, 1, 2, 1 << 31, 0xffffffff}[r.Intn(5, "count-key")]] = short("measurement")
+			ops = append(ops, "field:measurement-entry")
+		case 6:
+			if g.SevSnp != nil {
+				g.SevSnp.Measurements = nil
+			}
+			ops = append(ops, "field:measurements=nil")
+		case 7:
+			if g.SevSnp != nil {
+				g.SevSnp.CaBundle = [][]byte{nil, []byte("-----BEGIN CERTIFICATE-----\n"), []byte("-----BEGIN X-----\nAAAA\n-----END X-----\n"), short("bundle")}[r.Intn(4, "bundle")]
+				g.SevSnp.SvsmMeasurement = short("svsm")
+			}
+			ops = append(ops, "field:ca_bundle/svsm")
+		case 8:
+			g.CaBundle = short("ca-bundle")
+			ops = append(ops, "field:ca_bundle")
+		case 9:
+			g.Tdx = &epb.VMTdx{Measurements: []*epb.VMTdx_Measurement{nil, {RamGib: 0xffffffff, Mrtd: short("mrtd")}, {}}}
+			ops = append(ops, "field:tdx-rows")
+		case 10:
+			g.SevSnp = nil
+			ops = append(ops, "field:sev_snp=nil")
+		default:
+			if g.SevSnp != nil {
+				g.SevSnp.Policy = []uint64{0, 1 << 63, 0xffffffffffffffff}[r.Intn(3, "policy")]
+				g.SevSnp.FamilyId, g.SevSnp.ImageId = short("family"), short("image")
+			}
+			ops = append(ops, "field:policy/ids")
+		}
+	}
+	payload, err := proto.Marshal(g)
+	if err != nil {
+		return is.Bytes, "field:unmarshalable"
+	}
+	sig := is.Proto.Signature
+	if r.Bool("re-sign") {
+		sig = Sign(a.Current().Key, payload, 0)
+		ops = append(ops, "re-signed")
+	}
+	out, _ := proto.Marshal(&epb.VMLaunchEndorsement{SerializedUefiGolden: payload, Signature: sig})
+	return out, strings.Join(ops, ",")
 }
